@@ -789,7 +789,7 @@ def x_to_angles(points, latitude=False):
     theta = np.degrees(np.arccos(points[:, 2]/r))
     if latitude:
         theta = 90.0 - theta
-    x = np.zeros((npoints, 2), dtype=points.dtype)
+    x = np.zeros((npoints, 2), dtype=np.result_type(points.dtype, np.float32))
     x[:, 0] = phi
     x[:, 1] = theta
     return x
